@@ -121,13 +121,13 @@ type ContractFile struct {
 }
 type GhostField struct{ Type, Field, Sort string }
 
-var reClause = regexp.MustCompile(`^(requires|ensures|modifies|decreases|trusted|nilable|hint|assume|preserves|unreachable-returns|opaque|exit|apply|cut|rely|guarantee|interference)(\[[A-Za-z0-9,@]+\])?\s*(.*)$`)
+var reClause = regexp.MustCompile(`^(requires|ensures|modifies|decreases|trusted|nilable|hint|assume|preserves|unreachable-returns|opaque|exit|apply|cut|rely|guarantee|interference|inline)(\[[A-Za-z0-9,@]+\])?\s*(.*)$`)
 var reLoop = regexp.MustCompile(`^loop\s+(\d+)\s+(invariant|decreases|modifies|hint|apply|assume)(\[[A-Za-z0-9,@]+\])?\s+(.*)$`)
 var reGhostVar = regexp.MustCompile(`^ghost\s+var\s+([A-Za-z_][A-Za-z0-9_]*)\s+(int|bool|\[int\]int|\[int\]bool)\s*=\s*(.*)$`)
 var reAtCall = regexp.MustCompile(`^at\s+call\??\s+([A-Za-z0-9_./()*]+)#(\d+)\s+ghost(\[[A-Za-z0-9,@]+\])?\s+([A-Za-z_][A-Za-z0-9_.\[\]+\-* ()]*?)\s*:=\s*(.*)$`)
 var reByStepStore = regexp.MustCompile(`^bystep(\[[A-Za-z0-9,@]+\])?\s+store\s+in\s+(.*?)\s+when\s+(.*?)\s+by\s+([A-Za-z0-9_]+)$`)
 var reByStepCall = regexp.MustCompile(`^bystep(\[[A-Za-z0-9,@]+\])?\s+call\s+([A-Za-z0-9_./()*]+)#(\d+)\s+when\s+(.*?)\s+by\s+([A-Za-z0-9_]+)$`)
-var reAtReturn = regexp.MustCompile(`^at\s+return\s+ghost\s+([A-Za-z_][A-Za-z0-9_.\[\]+\-* ()]*?)\s*:=\s*(.*)$`)
+var reAtReturn = regexp.MustCompile(`^at\s+return\s+ghost(\[[A-Za-z0-9,@]+\])?\s+([A-Za-z_][A-Za-z0-9_.\[\]+\-* ()]*?)\s*:=\s*(.*)$`)
 var reAtCallHint = regexp.MustCompile(`^at\s+call\??\s+([A-Za-z0-9_./()*]+)#(\d+)\s+(?:hint|assume|check)(\[[A-Za-z0-9,@]+\])?\s+(.*)$`)
 var rePure = regexp.MustCompile(`^(?:pure|arith)\s+([A-Za-z_][A-Za-z0-9_]*)\s*\(([^)]*)\)\s*:\s*([A-Za-z0-9_\[\]\*\.]+)\s*=\s*(.*)$`)
 var reGhost = regexp.MustCompile(`^ghost\s+field\s+([A-Za-z_][A-Za-z0-9_]*)\.([A-Za-z_][A-Za-z0-9_]*)\s*:\s*(.*)$`)
@@ -313,15 +313,15 @@ func parseContractFile(path string) (*ContractFile, error) {
 				continue
 			}
 			if m := reAtReturn.FindStringSubmatch(t); m != nil {
-				e, err := parseSpec(m[2])
+				e, err := parseSpec(m[3])
 				if err != nil {
 					return nil, fail(err)
 				}
-				lhs, err := parseSpec(m[1])
+				lhs, err := parseSpec(m[2])
 				if err != nil {
 					return nil, fail(err)
 				}
-				cur.AtCalls = append(cur.AtCalls, AtCall{AtReturn: true, Var: m[1], LHS: lhs, Expr: e, Line: l.line})
+				cur.AtCalls = append(cur.AtCalls, AtCall{AtReturn: true, Var: m[2], LHS: lhs, Expr: e, Line: l.line, Props: parseProps(m[1])})
 				continue
 			}
 			if m := reLoop.FindStringSubmatch(t); m != nil {
@@ -385,6 +385,8 @@ func parseContractFile(path string) (*ContractFile, error) {
 					}
 					cl.Locs = locs
 				}
+			case "inline":
+				// callee names (kept in Text)
 			default:
 				e, err := parseSpec(m[3])
 				if err != nil {
